@@ -43,13 +43,23 @@ class ShimState:
         st = self.fd.get(fd)
         if st == "closed":
             self.violations.append(("use-after-close", f"{what} on closed {self.fd_kind.get(fd)} descriptor"))
+            self._stop(f"use-after-close: {what} on closed {self.fd_kind.get(fd)} descriptor")
             return False
         return True
+
+    @staticmethod
+    def _stop(detail):
+        """Behaviour after a descriptor misuse is undefined (the number may belong to someone else): end the
+        execution here, deterministically, with the misuse as its verdict."""
+        s = vsched.S
+        if s is not None and s.active and not s.aborting:
+            s._abort_from(s.me(), ("fd-violation", detail))
 
     def closed(self, fd):
         st = self.fd.get(fd)
         if st == "closed":
             self.violations.append(("double-close", f"{self.fd_kind.get(fd)} descriptor closed twice"))
+            self._stop(f"double-close: {self.fd_kind.get(fd)} descriptor closed twice")
             return False
         if st is None:
             return True  # not ours
